@@ -270,6 +270,10 @@ SPECIAL_LAYOUTS = [
      "R", ["rel", "pad", "body", "tail"]),
     ("signed_at", "class R%(V)s(Packet):\n    __bisturi__ = %(O)r\n    pad = Int(2)\n    pos = Int(1, signed=True)\n    body = Data(3).at(pos)\n    n = Int(3)\n",
      "R", ["pad", "pos", "body", "n"]),
+    # an automatic length over a field that may be absent: when the descriptor's function raises while packing, every option set
+    # must fail in the same way (whatever that way is)
+    ("autolength_of_absent", "class R%(V)s(Packet):\n    __bisturi__ = %(O)r\n    flag = Int(1)\n    length = Int(1).describe(AutoLength('payload'))\n    payload = Data(length).when(flag)\n    t = Int(1)\n",
+     "R", ["flag", "payload", "t"]),
     ("nested_size_from_optional", "class S%(V)s(Packet):\n    __bisturi__ = %(O)r\n    flags = Int(1)\n    n = Int(1).when(flags & 1)\n    d = Data(n)\n\nclass R%(V)s(Packet):\n    __bisturi__ = %(O)r\n    h = Int(1)\n    s = Ref(S%(V)s)\n    t = Int(1)\n",
      "R", ["h", "s.flags", "s.n", "s.d", "t"]),
 ]
@@ -305,6 +309,8 @@ def descriptor_hooks_part(run, rng):
                 inputs = [bytes(rng.randrange(256) for _ in range(rng.choice([0, 2, 3, 5, 8, 12, 20]))) for _ in range(10)]
                 inputs += [bytes([3, 0xF5, 0x41, 0x42, 0x43, 0xF7, 0x3B, 0xF2, 0xF3, 0xF4, 0xF5, 0xF6]), b"\x02\xf1;\xf2\xf3;" + bytes(range(0xE0, 0xF0)),
                            b"ab:cd;\x07ef;gh", b"\x02\x01\x02\xa5\x01\x02\x09", b"\x00\x05abcde", b"\x01\x02ab\x09\x08", b"\x07\x01\x02ab\x09", b"\x07\x00\x02ab\x09"]
+                if lname == "autolength_of_absent":
+                    inputs += [b"\x00\x00\x07", b"\x00\x03\x07", b"\x01\x02ab\x07", b"\x00\x02ab\x07"]
                 if lname in ("signed_shift", "signed_at"):
                     # every value of the steering byte x several payload lengths (the byte is the 1st / the 3rd of the input)
                     for L in (5, 8, 13):
